@@ -81,7 +81,8 @@ type c01In struct {
 
 var (
 	c01EOS    = []byte{0xff, 0xff, 0xff, 0xff, 0, 0, 0, 0}
-	c01Broken = []byte{7, 0, 0, 0, 'a', 'b', 'c'} // legacy-framed message of length 7, cut after 3 bytes
+	c01Broken = []byte{7, 0, 0, 0, 'a', 'b', 'c'} // legacy-framed message declaring 7 bytes with 3 left: refused by the framing guard
+	c01Cut    = []byte{0xff, 0xff}                // data ends inside a length prefix: passes the guard, arrow-go reports a read error
 	c01Junk   = []byte{7, 0, 0, 0, 'j', 'n', 'k'}
 )
 
@@ -227,6 +228,9 @@ func c01Encode(segs []c01Seg) (data []byte, werr []bool) {
 				if s.Term == "broken" {
 					raw = append(append([]byte{}, raw...), c01Broken...)
 				}
+				if s.Term == "cut" {
+					raw = append(append([]byte{}, raw...), c01Cut...)
+				}
 			}
 			out.Write(raw)
 		case "wreq":
@@ -332,7 +336,12 @@ func c01Decode(data []byte) []c01ASeg {
 		rd.Release()
 		pos := len(data) - r.Len()
 		if rerr != nil {
+			// the two unterminated forms this harness writes end the data; tell
+			// them apart by the bytes themselves
 			seg.Term = "broken"
+			if bytes.HasSuffix(data, c01Cut) && !bytes.HasSuffix(data, c01Broken) {
+				seg.Term = "cut"
+			}
 		} else if !bytes.HasSuffix(data[:pos], c01EOS) {
 			seg.Term = "eof"
 		}
@@ -386,6 +395,8 @@ func c01CoqTerm(t string) string {
 		return "C01.TEof"
 	case "broken":
 		return "C01.TBroken"
+	case "cut":
+		return "C01.TCut"
 	}
 	return "C01.TEos"
 }
@@ -439,18 +450,20 @@ type c01RR struct {
 }
 
 type c01Obs struct {
-	Body   []c01ASeg  `json:"body"`
-	WErr   []bool     `json:"werr"`
-	RR     c01RR      `json:"read_request"`
-	State  []byte     `json:"state"`
-	Call   []byte     `json:"call"`
-	State1 []byte     `json:"state_single"`
-	Call1  []byte     `json:"call_single"`
-	PV     []byte     `json:"protocol_version"`
-	URok   bool       `json:"unary_ok"`
-	URsc   []c01Field `json:"unary_schema,omitempty"`
-	UR     []byte     `json:"unary_result,omitempty"`
-	Panics []string   `json:"panics,omitempty"`
+	Body     []c01ASeg  `json:"body"`
+	WErr     []bool     `json:"werr"`
+	RR       c01RR      `json:"read_request"`
+	State    []byte     `json:"state"`
+	Call     []byte     `json:"call"`
+	State1   []byte     `json:"state_single"`
+	Call1    []byte     `json:"call_single"`
+	PV       []byte     `json:"protocol_version"`
+	URok     bool       `json:"unary_ok"`
+	URsc     []c01Field `json:"unary_schema,omitempty"`
+	UR       []byte     `json:"unary_result,omitempty"`
+	Guard    bool       `json:"framing_ok_first"`
+	GuardAll bool       `json:"framing_ok_all"`
+	Panics   []string   `json:"panics,omitempty"`
 }
 
 func c01Guard(name string, panics *[]string, f func()) {
@@ -463,13 +476,26 @@ func c01Guard(name string, panics *[]string, f func()) {
 }
 
 // c01Readers runs every reader of the wire-helper surface on data.
-func c01Readers(data []byte, firstMeta []c01KV) c01Obs {
+// mode selects the reader-based ReadRequest ("rr"), the byte-slice functions
+// ("slice") or both ("all").
+func c01Readers(data []byte, firstMeta []c01KV, mode string) c01Obs {
 	var o c01Obs
 	defer func() {
 		if p := recover(); p != nil { // not reachable: every reader runs under c01Guard
 			o.Panics = append(o.Panics, fmt.Sprint(p))
 		}
 	}()
+	if mode != "slice" {
+		c01ReadRequest(data, firstMeta, &o)
+	}
+	if mode != "rr" {
+		c01SliceReaders(data, &o)
+	}
+	return o
+}
+
+func c01ReadRequest(data []byte, firstMeta []c01KV, op *c01Obs) {
+	o := op
 	c01Guard("ReadRequest", &o.Panics, func() {
 		req, err := vgirpc.ReadRequest(bytes.NewReader(data))
 		if err != nil {
@@ -520,6 +546,15 @@ func c01Readers(data []byte, firstMeta []c01KV) c01Obs {
 		}
 		req.Batch.Release()
 	})
+}
+
+func c01SliceReaders(data []byte, op *c01Obs) {
+	o := op
+	c01Guard("checkIPCStreamFraming", &o.Panics, func() {
+		_, err := vgirpc.VerifCheckIPCStreamFraming(data)
+		o.Guard = err == nil
+	})
+	c01Guard("checkIPCFraming", &o.Panics, func() { o.GuardAll = vgirpc.VerifCheckIPCFraming(data) == nil })
 	c01Guard("FindStreamTokens", &o.Panics, func() { o.State, o.Call = vgirpc.FindStreamTokens(data) })
 	c01Guard("FindStateToken", &o.Panics, func() { o.State1 = vgirpc.FindStateToken(data) })
 	c01Guard("FindCallStateToken", &o.Panics, func() { o.Call1 = vgirpc.FindCallStateToken(data) })
@@ -534,7 +569,6 @@ func c01Readers(data []byte, firstMeta []c01KV) c01Obs {
 			}
 		}
 	})
-	return o
 }
 
 func c01CoqRR(r c01RR) string {
@@ -551,23 +585,41 @@ func c01Run(in c01In) CaseOut {
 		// Malformed bytes are handed to a child process: a reader that asks the Go
 		// runtime for more memory than the address-space limit dies with a fatal
 		// error that no recover() can catch, and that must be observed, not suffered.
-		res := c01RunIsolated(in.Data)
-		tags := []string{"malformed", "mal-" + in.Note, "mal-rr-" + res.RR}
-		crashes := len(res.Panics)
-		for _, p := range res.Panics {
-			tags = append(tags, "PANIC")
-			if strings.HasPrefix(p, "ReadUnaryResult: ") && strings.Contains(p, "slice bounds out of range") {
-				tags = append(tags, "finding-unary-result-offsets-panic")
-			} else {
-				tags = append(tags, "panic-unlisted")
-			}
+		// The byte-slice functions and the reader-based ReadRequest run in separate
+		// child invocations so that a death is attributed to the right one.
+		sl := c01RunIsolated(in.Data, 'S')
+		rr := c01RunIsolated(in.Data, 'R')
+		tags := []string{"malformed", "mal-" + in.Note, "mal-rr-" + rr.RR}
+		rrCrashes, slCrashes := len(rr.Panics), len(sl.Panics)
+		for range rr.Panics {
+			tags = append(tags, "PANIC", "panic-readrequest-unlisted")
 		}
-		if res.Fatal != "" {
-			crashes++
-			tags = append(tags, "FATAL", "finding-ipc-body-length-oom")
+		for range sl.Panics {
+			tags = append(tags, "PANIC", "panic-slice-unlisted")
 		}
-		return CaseOut{Coq: Pair("C01.IMalformed", App("C01.OM", N(uint64(crashes)))), Tags: c01Uniq(tags),
-			Nontrivial: len(in.Data) > 0, Obs: map[string]any{"rr": res.RR, "unary_ok": res.URok, "panics": res.Panics, "fatal": res.Fatal, "len": len(in.Data), "alloc_mib": res.AllocM, "ms": res.Ms}}
+		if rr.Fatal != "" {
+			rrCrashes++
+			tags = append(tags, "FATAL-readrequest", "finding-ipc-body-length-oom")
+		}
+		if sl.Fatal != "" {
+			slCrashes++
+			tags = append(tags, "FATAL-slice-unlisted")
+		}
+		if sl.AllocM > 8 {
+			tags = append(tags, "slice-alloc-over-cap")
+		}
+		// a body the framing guard refuses must yield nothing
+		refusal := sl.Fatal != "" || sl.Guard || (!sl.Found && !sl.URok)
+		if !sl.Guard && sl.Fatal == "" {
+			tags = append(tags, "mal-framing-refused")
+		}
+		if !refusal {
+			tags = append(tags, "refusal-ignored")
+		}
+		return CaseOut{Coq: Pair("C01.IMalformed", App("C01.OM", N(uint64(rrCrashes)), N(uint64(slCrashes)), N(sl.AllocM), Bool(refusal))), Tags: c01Uniq(tags),
+			Nontrivial: len(in.Data) > 0, Obs: map[string]any{"rr": rr.RR, "rr_fatal": rr.Fatal, "rr_panics": rr.Panics, "rr_alloc_mib": rr.AllocM,
+				"slice_fatal": sl.Fatal, "slice_panics": sl.Panics, "slice_alloc_mib": sl.AllocM, "slice_ms": sl.Ms,
+				"framing_ok": sl.Guard, "found_any": sl.Found, "unary_ok": sl.URok, "len": len(in.Data)}}
 	}
 	data, werr := c01Encode(in.Segs)
 	body := c01Decode(data)
@@ -575,7 +627,7 @@ func c01Run(in c01In) CaseOut {
 	if len(body) > 0 && len(body[0].Batches) > 0 {
 		firstMeta = body[0].Batches[0].Meta
 	}
-	o := c01Readers(data, firstMeta)
+	o := c01Readers(data, firstMeta, "all")
 	o.Body, o.WErr = body, werr
 
 	ur := "None"
@@ -585,7 +637,7 @@ func c01Run(in c01In) CaseOut {
 	coqObs := App("C01.OB", App("C01.Build_bobs",
 		ListOf(body, c01CoqASeg), ListOf(werr, Bool), c01CoqRR(o.RR),
 		Pair(c01OptB(o.State), c01OptB(o.Call)), c01OptB(o.State1), c01OptB(o.Call1),
-		B(string(o.PV)), ur, N(uint64(len(o.Panics)))))
+		B(string(o.PV)), ur, Bool(o.Guard), Bool(o.GuardAll), N(uint64(len(o.Panics)))))
 	coqIn := App("C01.IBody", ListOf(in.Segs, c01CoqSeg))
 
 	tags := []string{"body", "rr-" + o.RR.Class}
@@ -773,6 +825,8 @@ func c01Term(r *rand.Rand) string {
 		return "eof"
 	case 1:
 		return "broken"
+	case 2:
+		return "cut"
 	}
 	return "eos"
 }
@@ -1010,8 +1064,9 @@ func c01Gen(r *rand.Rand, n int, tier string) []c01In {
 		}
 		out = append(out, in)
 	}
-	// malformed stream: EVERY truncation of the small bodies first, then (for a
-	// quarter of the budget) bit flips, random bytes and random splices.
+	// malformed stream: truncations of the small bodies first (every one in the
+	// thorough tier), then (for a quarter of the budget) bit flips, random bytes
+	// and random splices.
 	bodies := c01SmallBodies()
 	var truncs []c01In
 	for bi, b := range bodies {
@@ -1019,9 +1074,21 @@ func c01Gen(r *rand.Rand, n int, tier string) []c01In {
 			truncs = append(truncs, c01In{Mal: true, Note: fmt.Sprintf("trunc-body%d", bi), Data: b[:cut]})
 		}
 	}
-	// exhaustive in every tier (these cases cost next to nothing on either side)
-	out = append(out, truncs...)
-	n = len(out) + (n-nStruct)/2
+	// exhaustive in the thorough tier; an even spread of a quarter of the budget
+	// in the quick tier
+	if tier == "thorough" {
+		out = append(out, truncs...)
+	} else {
+		keep := (n - nStruct) * 5 / 8
+		for i := 0; i < keep; i++ {
+			out = append(out, truncs[i*len(truncs)/keep])
+		}
+	}
+	if tier == "thorough" {
+		n = len(out) + (n-nStruct)/2
+	} else {
+		n = len(out) + (n-nStruct)*3/8 // the slow inputs (huge declared lengths through ReadRequest) live here
+	}
 	for len(out) < n {
 		b := append([]byte{}, bodies[r.Intn(len(bodies))]...)
 		switch r.Intn(4) {
@@ -1060,6 +1127,8 @@ func c01Gen(r *rand.Rand, n int, tier string) []c01In {
 type c01MalRes struct {
 	RR     string   `json:"rr"`
 	URok   bool     `json:"unary_ok"`
+	Guard  bool     `json:"framing_ok"`
+	Found  bool     `json:"found_any"` // a token or a protocol version came out
 	Panics []string `json:"panics,omitempty"`
 	Fatal  string   `json:"fatal,omitempty"` // first line of the runtime's fatal error when the child died
 	Ms     int64    `json:"ms,omitempty"`
@@ -1097,24 +1166,28 @@ func c01ChildMain() {
 	in := bufio.NewReader(os.Stdin)
 	out := bufio.NewWriter(os.Stdout)
 	for {
-		var hdr [4]byte
+		var hdr [5]byte
 		if _, err := io.ReadFull(in, hdr[:]); err != nil {
 			return
 		}
-		data := make([]byte, binary.LittleEndian.Uint32(hdr[:]))
+		mode := "slice"
+		if hdr[0] == 'R' {
+			mode = "rr"
+		}
+		data := make([]byte, binary.LittleEndian.Uint32(hdr[1:]))
 		if _, err := io.ReadFull(in, data); err != nil {
 			return
 		}
 		var m0, m1 runtime.MemStats
 		runtime.ReadMemStats(&m0)
 		t0 := time.Now()
-		o := c01Readers(data, nil)
+		o := c01Readers(data, nil, mode)
 		ms := time.Since(t0).Milliseconds()
 		runtime.ReadMemStats(&m1)
 		if ms > 5 {
 			debug.FreeOSMemory() // a reader allocated a lot: give it back before the next input
 		}
-		b, _ := json.Marshal(c01MalRes{RR: o.RR.Class, URok: o.URok, Panics: o.Panics, Ms: ms, AllocM: (m1.TotalAlloc - m0.TotalAlloc) >> 20})
+		b, _ := json.Marshal(c01MalRes{RR: o.RR.Class, URok: o.URok, Guard: o.Guard, Found: o.State != nil || o.Call != nil || len(o.PV) > 0, Panics: o.Panics, Ms: ms, AllocM: (m1.TotalAlloc - m0.TotalAlloc) >> 20})
 		out.Write(b)
 		out.WriteByte('\n')
 		out.Flush()
@@ -1126,6 +1199,7 @@ type c01ChildProc struct {
 	stdin  io.WriteCloser
 	stdout *bufio.Reader
 	stderr *bytes.Buffer
+	dirty  bool // an earlier input made this child allocate a MiB or more
 }
 
 var (
@@ -1154,31 +1228,37 @@ func c01StartChild() *c01ChildProc {
 // allocate a lot is retired (its address space stays mapped and would make a
 // later input look worse than it is); a child that dies is replaced and the
 // input is run once more in the fresh one, so a reported crash never depends
-// on what ran before.
-func c01RunIsolated(data []byte) c01MalRes {
+// on what ran before (a child that has allocated nothing so far is as good as
+// fresh).
+func c01RunIsolated(data []byte, mode byte) c01MalRes {
 	c01ChildMu.Lock()
 	defer c01ChildMu.Unlock()
-	res, died := c01ChildOnce(data)
-	if died {
-		res, _ = c01ChildOnce(data)
+	dirty := c01Child != nil && c01Child.dirty
+	res, died := c01ChildOnce(data, mode)
+	if died && dirty { // only a child that had allocated before needs the second opinion
+		res, _ = c01ChildOnce(data, mode)
 	}
 	return res
 }
 
-func c01ChildOnce(data []byte) (c01MalRes, bool) {
+func c01ChildOnce(data []byte, mode byte) (c01MalRes, bool) {
 	if c01Child == nil {
 		c01Child = c01StartChild()
 	}
 	c := c01Child
-	var hdr [4]byte
-	binary.LittleEndian.PutUint32(hdr[:], uint32(len(data)))
+	var hdr [5]byte
+	hdr[0] = mode
+	binary.LittleEndian.PutUint32(hdr[1:], uint32(len(data)))
 	c.stdin.Write(hdr[:])
 	c.stdin.Write(data)
 	line, err := c.stdout.ReadBytes('\n')
 	if err == nil {
 		var res c01MalRes
 		if json.Unmarshal(line, &res) == nil {
-			if res.AllocM > 8 || res.Ms > 20 {
+			if res.AllocM >= 1 {
+				c.dirty = true
+			}
+			if res.AllocM > 8 {
 				c.stdin.Close()
 				c.cmd.Wait()
 				c01Child = nil
